@@ -275,3 +275,31 @@ func verifDecodeResponse(w []byte) verifDecoded {
 }
 
 var _ = http.StatusOK
+
+// what a client sees of a response (nbio's or net/http's)
+type verifSeenRes struct {
+	code         int
+	status       string
+	major, minor int
+	header       http.Header
+	cl           int64
+	body         []byte
+	trailer      http.Header
+}
+
+func verifSnapshotRes(r *http.Response) *verifSeenRes {
+	s := &verifSeenRes{code: r.StatusCode, status: r.Status, major: r.ProtoMajor, minor: r.ProtoMinor, header: r.Header, cl: r.ContentLength}
+	if r.Body != nil {
+		buf := make([]byte, 64)
+		for {
+			n, err := r.Body.Read(buf)
+			s.body = append(s.body, buf[:n]...)
+			if err != nil || n == 0 {
+				break
+			}
+		}
+	}
+	s.trailer = r.Trailer
+	return s
+}
+
